@@ -19,8 +19,9 @@ fn run(args: &Args) -> i32 {
 	match args.pos.get(0).map(|s| s.as_str()) {
 		Some("record") => record(args),
 		Some("replay") => replay(args),
+		Some("rewind") => rewind(args),
 		_ => {
-			eprintln!("mmr record|replay");
+			eprintln!("mmr record|replay|rewind");
 			2
 		}
 	}
@@ -106,6 +107,95 @@ fn record(args: &Args) -> i32 {
 	let n = out.n;
 	out.finish();
 	println!("{}", json!({"events": n, "size": size}));
+	0
+}
+
+/// Direction A, histories: pushes and rewinds emitted by MC_MMRRewind (simulation of SpecRW) executed on a
+/// data-carrying and on a hash-only VecBackend; after every step the size is the closed form of the leaf
+/// count and the backend holds exactly that many hashes; at the end root, peaks and every proof path are
+/// those of the specification's MMR of the final leaf count (RewindIsPrefix).
+fn rewind(args: &Args) -> i32 {
+	let cases = read_ndjson(args.req("cases"));
+	let mut out = NdWriter::create(args.req("out"));
+	for c in cases {
+		let mut mism: Vec<Value> = vec![];
+		let mut nchecks = 0u64;
+		for kind in ["data", "hash_only"] {
+			let mut ba = if kind == "data" {
+				VecBackend::<Elem>::new()
+			} else {
+				VecBackend::<Elem>::new_hash_only()
+			};
+			let mut size = 0u64;
+			let mut nl = 0u64;
+			for (step, op) in c["ops"].as_array().unwrap().iter().enumerate() {
+				let k = op["k"].as_u64().unwrap();
+				let r = std::panic::catch_unwind(std::panic::AssertUnwindSafe(|| {
+					let mut p = PMMR::at(&mut ba, size);
+					if op["op"] == "push" {
+						p.push(&Elem::of(nl)).map(|_| ()).map_err(|e| e.to_string())?;
+					} else {
+						p.rewind(pmmr::insertion_to_pmmr_index(k), &croaring::Bitmap::new())?;
+					}
+					Ok::<u64, String>(p.unpruned_size())
+				}));
+				match r {
+					Ok(Ok(sz)) => size = sz,
+					Ok(Err(e)) => {
+						mism.push(json!({"what":"op_error","kind":kind,"step":step,"err":e}));
+						break;
+					}
+					Err(_) => {
+						mism.push(json!({"what":"op_panic","kind":kind,"step":step}));
+						break;
+					}
+				}
+				nl = if op["op"] == "push" { nl + 1 } else { k };
+				nchecks += 1;
+				if size != pmmr::insertion_to_pmmr_index(nl) {
+					mism.push(json!({"what":"size_after_op","kind":kind,"step":step,"nl":nl,"real":size}));
+					break;
+				}
+				if ba.size() != size {
+					mism.push(json!({"what":"backend_size_after_op","kind":kind,"step":step,"nl":nl,"pmmr":size,"backend":ba.size()}));
+					break;
+				}
+			}
+			if !mism.is_empty() {
+				continue;
+			}
+			let f = &c["final"];
+			if f["nl"].as_u64() != Some(nl) || f["size"].as_u64() != Some(size) {
+				mism.push(json!({"what":"final_count","kind":kind,"spec_nl":f["nl"],"real_nl":nl,"spec_size":f["size"],"real_size":size}));
+				continue;
+			}
+			let p = PMMR::at(&mut ba, size);
+			let root_spec = eval_term(&f["root"], &elem_leaf);
+			match p.root() {
+				Ok(r) if r == root_spec => {}
+				_ => mism.push(json!({"what":"root_after_history","kind":kind,"nl":nl})),
+			}
+			let peaks_spec: Vec<u64> = f["peaks"].as_array().unwrap().iter().map(|x| x.as_u64().unwrap()).collect();
+			if pmmr::peaks(size) != peaks_spec {
+				mism.push(json!({"what":"peaks_after_history","kind":kind,"nl":nl}));
+			}
+			for pr in f["proofs"].as_array().unwrap() {
+				let pos = pr["pos"].as_u64().unwrap();
+				let path_spec: Vec<Hash> = pr["path"].as_array().unwrap().iter().map(|t| eval_term(t, &elem_leaf)).collect();
+				nchecks += 1;
+				match p.merkle_proof(pos) {
+					Ok(x) => {
+						if x.path != path_spec || x.mmr_size != size {
+							mism.push(json!({"what":"proof_after_history","kind":kind,"pos":pos,"nl":nl}));
+						}
+					}
+					Err(e) => mism.push(json!({"what":"merkle_proof_err_after_history","kind":kind,"pos":pos,"err":e})),
+				}
+			}
+		}
+		out.put(&json!({"checks":nchecks,"mismatches":mism}));
+	}
+	out.finish();
 	0
 }
 
